@@ -37,7 +37,8 @@ CLAIMS['C13'] = {
              'contents and request, a get that returns ok (frame, cls) has cls = requested or the policy rates (requested, cls) '
              'Match/Steal; proved by structural induction over the get program with adversarial memory (every value observed by '
              'an atomic access universally quantified), hence for sequential runs and for every interleaving at single-access '
-             'granularity. Model tied to llfree.rs/trees.rs/local.rs by byte-level sequential differential runs.'),
+             'granularity. Model tied to llfree.rs/trees.rs/local.rs by byte-level sequential differential runs.'
+             ' Theorem class_decisions_match_source: the entry transitions that decide classes (Tree::steal, reserve_or_steal, unreserve_add) are regenerated from core/src/trees.rs on every run by the translator (Gen/Tree.lean) and proved equal to the model\'s transitions for every entry, class, amount and policy (Proofs/GenTree.lean).'),
     'note': TB,
     'technique': 'Lean 4 structural induction with adversarial memory (Always predicate, sound for runSolo and single-access thread steps) + sequential differential',
 }
@@ -173,7 +174,8 @@ CLAIMS['C04'] = {
              'every quiescent state satisfies the sequential invariant for hidden frames H\' >= H, so tree_stats + hidden = stats there too. Theorem k3_online_race_overreports REFUTES the property for interleavings with a concurrent change_tree(Online) (known finding K3): a kernel-evaluated schedule '
              'ending quiescent with tree counter 64 although only 63 frames of the tree are free (the frames of a free that raced with the Online fetch are counted twice); on the real code '
              'tree_stats().free_frames exceeds the exact count and validate() fails (findings/K3-online-race.txt, conc scenario kind 7 of every run).' + PART + 'interleavings in which a call trapped, partial frees of huge allocations (K1) and change_tree under interleavings (K3: false for Online racing with a free) are carried by '
-             'the accounting oracle of the sequential and concurrent correspondence.'),
+             'the accounting oracle of the sequential and concurrent correspondence.'
+             ' Theorem counter_transitions_match_source: the entry transitions that move counters (Tree::with, Tree::put, and impl LocalTree: with, none, get, put, set_start) are regenerated from core/src/trees.rs and core/src/local.rs on every run by the translator (Gen/Tree.lean, Gen/Local.lean) and proved equal to the model\'s transitions for every argument.'),
     'note': TB + ' Upper-level theorems hold for configurations satisfying CfgOk (class ids < 8, ordered policy, tree size < 2^19: every configuration of the repository; derived from elementary checks by CfgOk.of_checks); they depend on the C23 theorem (bv_decide axioms) through the lower search.',
     'technique': 'Lean 4 theorems from the lower and upper invariants + accounting oracle in the sequential differential and at quiescent ends of co-simulated interleavings',
 }
@@ -238,7 +240,8 @@ CLAIMS['C11'] = {
              'with the global counter of its tree (frames freed without naming the slot), else by search_and_reserve over the other trees; no drain '
              'needed. Built from the complete case analysis of get_local (getLocal_cases: exact results of Locals::get / Trees::sync / Locals::put) and '
              'the counting argument that a failing get_local leaves an unreserved tree with a positive counter. Theorems sync_exact / sync_boundary / '
-             'sync_then_get: Tree::sync_steal succeeds iff the tree is reserved and holds at least the minimum (the boundary free = min of F8 included).'),
+             'sync_then_get: Tree::sync_steal succeeds iff the tree is reserved and holds at least the minimum (the boundary free = min of F8 included).'
+             ' Theorem sync_steal_matches_source: Tree::sync_steal (the boundary free >= min of F8) is regenerated from core/src/trees.rs on every run by the translator and proved equal to the model\'s transition.'),
     'note': TB + ' Holds for configurations satisfying CfgOk; depends on the C23 theorem (bv_decide axioms) through the lower search.',
     'technique': 'Lean 4 completeness proof over the sequential semantics (program logic + exact-result lemmas) + single-slot differential',
 }
@@ -267,7 +270,8 @@ CLAIMS['C15'] = {
              'Offline moves the counter into H i, Online sets H i = 0, nothing else changes H; the fast free count excludes exactly H (C04). '
              'Theorem conc_hidden_frames_stay_free: under EVERY interleaving of any number of threads that allocate, free, drain and change trees (class change and/or Offline, by id or by search) '
              'every quiescent end satisfies the invariant with hidden frames H\' >= H and, tree by tree, counter + reservations + H\' i = free frames: nothing was allocated from the frames an Offline call hid, whatever raced with it. '
-             'Online under interleavings is refuted (C04.k3_online_race_overreports: the restoration is not exact when a free is in flight; known finding K3).'),
+             'Online under interleavings is refuted (C04.k3_online_race_overreports: the restoration is not exact when a free is in flight; known finding K3).'
+             ' Theorem change_matches_source: Tree::change is regenerated from core/src/trees.rs on every run by the translator (Gen/Tree.lean) and proved equal to the model\'s transition for every entry, matcher, change and fetched count.'),
     'note': TB + ' Upper-level theorems hold for configurations satisfying CfgOk (class ids < 8, ordered policy, tree size < 2^19: every configuration of the repository; derived from elementary checks by CfgOk.of_checks); they depend on the C23 theorem (bv_decide axioms) through the lower search.' + ' Model deviation recorded in DESIGN.md: Online reads the lower counters before the update closure.',
     'technique': 'Lean 4 proof of change_tree against the upper invariant with exact accounting of hidden frames (from which "never allocated from" follows for every history) + theorems about the tree steps + change-heavy sequential differential',
 }
